@@ -2,7 +2,7 @@
    SC.C15.Model instantiated at the real numbers (ROps); the correspondence check ties the same
    model, instantiated at binary64, to src/metrics/*.rs. *)
 From Coq Require Import List ZArith Reals Bool Arith Lia Lra Permutation Sorted.
-From SC Require Import Base.Num C15.Model C15.ProofsBasic C15.ProofsAUC C15.ProofsHCV C15.ProofsHCV2 C15.ProofsHCV3.
+From SC Require Import Base.Num C15.Model C15.ProofsBasic C15.ProofsCM C15.ProofsAUC C15.ProofsAUC2 C15.ProofsHCV C15.ProofsHCV2 C15.ProofsHCV3.
 Import ListNotations.
 Local Open Scope R_scope.
 
@@ -79,9 +79,40 @@ Theorem C15_auc_definition : forall yt scores,
   auc ROps yt scores = Some (auc_pairwise yt scores).
 Proof. exact auc_def. Qed.
 
+(* the boolean check that every correspondence case runs on the index vector returned by the
+   implementation's quick_argsort (SC.C15.Corr.corr_auc) implies the hypotheses above *)
+Theorem C15_auc_checked_permutation : forall yt scores idx,
+  length scores = length yt -> yt <> [] -> binary yt -> sorting_perm_b ROps scores idx = true ->
+  auc_with ROps yt scores idx = Some (auc_pairwise yt scores).
+Proof. exact auc_checked. Qed.
+
+(* the rank loop never runs out of fuel, for every scalar instance (also binary64, unsorted input) *)
+Theorem C15_auc_rank_loop_fuel_sufficient : forall (T : Type) (O : Ops T) (i : nat) (ys : list T),
+  exists r, ranks O (length ys) i ys = Some r.
+Proof. intros T O i ys. exact (ranks_fuel O (length ys) i ys (le_n _)). Qed.
+
 Theorem C15_auc_rejects_non_binary : forall yt scores idx,
   ~ binary yt -> auc_with ROps yt scores idx = None.
 Proof. exact auc_non_binary. Qed.
+
+(* ------------------------------------------------------------------------------------------------
+   Model fidelity lemmas for the cluster helpers.  The increment loop of contingency_matrix
+   (`m[class_idx[i]][cluster_idx[i]] += 1` on a zero table) equals the table of pair counts, and the
+   indices never leave the table; over the reals the entropy loop gives the same value for every
+   iteration order of the HashMap (the model iterates in key order). *)
+Theorem C15_contingency_loop_closed_form : forall a b,
+  contingency_matrix a b =
+  if Nat.ltb (length b) (length a) then None
+  else Some (map (fun r => map (fun c =>
+                count_pair r c (combine (map (fun z => index_of z (usort a)) a)
+                                        (map (fun z => index_of z (usort b)) b)))
+                                   (seq 0 (length (usort b))))
+                 (seq 0 (length (usort a)))).
+Proof. exact contingency_matrix_closed. Qed.
+
+Theorem C15_entropy_order_independent : forall cs cs', Permutation cs cs' ->
+  entropy_of_counts ROps cs = entropy_of_counts ROps cs'.
+Proof. exact entropy_order_independent. Qed.
 
 (* ------------------------------------------------------------------------------------------------
    Cluster scores.  Labels are integers; `usort a` = the distinct labels of a, `na a u` = number of
